@@ -2040,30 +2040,6 @@ static Node *to_assign(Node *binary) {
   add_type(binary->rhs);
   Token *tok = binary->tok;
 
-  // Convert `A.x op= C` to `tmp = &A, (*tmp).x = (*tmp).x op C`.
-  if (binary->lhs->kind == ND_MEMBER) {
-    Obj *var = new_lvar("", pointer_to(binary->lhs->lhs->ty));
-
-    Node *expr1 = new_binary(ND_ASSIGN, new_var_node(var, tok),
-                             new_unary(ND_ADDR, binary->lhs->lhs, tok), tok);
-
-    Node *expr2 = new_unary(ND_MEMBER,
-                            new_unary(ND_DEREF, new_var_node(var, tok), tok),
-                            tok);
-    expr2->member = binary->lhs->member;
-
-    Node *expr3 = new_unary(ND_MEMBER,
-                            new_unary(ND_DEREF, new_var_node(var, tok), tok),
-                            tok);
-    expr3->member = binary->lhs->member;
-
-    Node *expr4 = new_binary(ND_ASSIGN, expr2,
-                             new_binary(binary->kind, expr3, binary->rhs, tok),
-                             tok);
-
-    return new_binary(ND_COMMA, expr1, expr4, tok);
-  }
-
   // If A is an atomic type, Convert `A op= B` to
   //
   // ({
@@ -2124,6 +2100,30 @@ static Node *to_assign(Node *binary) {
     Node *node = new_node(ND_STMT_EXPR, tok);
     node->body = head.next;
     return node;
+  }
+
+  // Convert `A.x op= C` to `tmp = &A, (*tmp).x = (*tmp).x op C`.
+  if (binary->lhs->kind == ND_MEMBER) {
+    Obj *var = new_lvar("", pointer_to(binary->lhs->lhs->ty));
+
+    Node *expr1 = new_binary(ND_ASSIGN, new_var_node(var, tok),
+                             new_unary(ND_ADDR, binary->lhs->lhs, tok), tok);
+
+    Node *expr2 = new_unary(ND_MEMBER,
+                            new_unary(ND_DEREF, new_var_node(var, tok), tok),
+                            tok);
+    expr2->member = binary->lhs->member;
+
+    Node *expr3 = new_unary(ND_MEMBER,
+                            new_unary(ND_DEREF, new_var_node(var, tok), tok),
+                            tok);
+    expr3->member = binary->lhs->member;
+
+    Node *expr4 = new_binary(ND_ASSIGN, expr2,
+                             new_binary(binary->kind, expr3, binary->rhs, tok),
+                             tok);
+
+    return new_binary(ND_COMMA, expr1, expr4, tok);
   }
 
   // Convert `A op= B` to ``tmp = &A, *tmp = *tmp op B`.
